@@ -395,3 +395,74 @@ def collect_streams(model, info, art):
         if v == "confirmed":
             return v, d
     return out[0]
+
+
+def open_emit_fails(model, info, art):
+    """C01: a subscriber raising while open_run delivers its first documents: the run must count as open afterwards"""
+    fail_at = info.get("fail_at", "start")
+    sent = []
+
+    async def emit(name, doc):
+        sent.append(name.name)
+        if name.name == fail_at:
+            raise ValueError("callback failed")
+    b = RunBundler({}, fail_at == "descriptor", emit, lambda n, d: None, logging.getLogger("replay"), strict_pre_declare=False)
+
+    async def go():
+        try:
+            await b.open_run(Msg("open_run"))
+            return None
+        except ValueError as e:
+            return e
+    e = asyncio.run(go())
+    ok = e is not None and sent[:1] == ["start"] and b.run_is_open is True
+    return ("contradicted" if ok else "confirmed"), f"delivery of {fail_at} failed: raised={e!r}, sent={sent}, run_is_open={b.run_is_open}"
+
+
+def close_monitors_suspended(model, info, art):
+    """C01: closing a run whose monitors are suspended, on a device whose clear_sub refuses unknown callbacks"""
+    suspended, via_epilogue = bool(info.get("suspended", True)), bool(info.get("via_epilogue", False))
+
+    class Sig:
+        name = "sig"
+        parent = None
+
+        def __init__(self):
+            self.cbs = []
+
+        def read(self):
+            return {"sig": {"value": 1, "timestamp": 0}}
+
+        def describe(self):
+            return {"sig": {"dtype": "number", "shape": [], "source": "x"}}
+
+        def read_configuration(self):
+            return {}
+
+        def describe_configuration(self):
+            return {}
+
+        def subscribe(self, cb, **kw):
+            self.cbs.append(cb)
+
+        def clear_sub(self, cb):
+            self.cbs.remove(cb)
+    b, out = _bundler(False)
+    sig = Sig()
+
+    async def go():
+        await b.open_run(Msg("open_run"))
+        await b.monitor(Msg("monitor", sig, name="mon"))
+        if suspended:
+            await b.suspend_monitors()
+        if via_epilogue:
+            b.clear_monitors()
+        del out[:]
+        try:
+            await b.close_run(Msg("close_run", exit_status="abort", reason=""))
+            return None
+        except Exception as e:   # noqa
+            return e
+    e = asyncio.run(go())
+    ok = e is None and [n for n, d in out] == ["stop"] and not sig.cbs and b.run_is_open is False
+    return ("contradicted" if ok else "confirmed"), f"suspended={suspended} via_epilogue={via_epilogue}: raised={e!r}, emitted={[n for n, d in out]}, still subscribed={len(sig.cbs)}"
